@@ -66,7 +66,7 @@ class Solver:
             seen.add(x)
             self.var(x)
             k = P.ATOMS.kind[x]
-            if k in ('sqrt', 'inv', 'abs', 'opq'):
+            if k in ('sqrt', 'inv', 'abs', 'opq', 'lin'):
                 todo.extend(P.ATOMS.info[x].atoms())
             elif k == 'ite':
                 c, p, q = P.ATOMS.info[x]
@@ -152,7 +152,7 @@ class Solver:
         elif kind == 'ite':
             c, p, q = info
             self.s.add(v == z3.If(self.cond_term(c), self.exact_term(p), self.exact_term(q)))
-        elif kind == 'opq':
+        elif kind in ('opq', 'lin'):
             self.s.add(v == self.exact_term(info))
 
     def exact_term(self, p):
@@ -160,7 +160,7 @@ class Solver:
         for k, c in p.t.items():
             t = z3.RealVal(c)
             for a in k:
-                if P.ATOMS.kind[a] in ('sqrt', 'inv', 'abs', 'ite', 'opq'):
+                if P.ATOMS.kind[a] in ('sqrt', 'inv', 'abs', 'ite', 'opq', 'lin'):
                     self.emit_def(a)
                 t = t * self.var(a)
             parts.append(t)
@@ -283,7 +283,7 @@ class Solver:
                 continue
             seen.add(a)
             self.var(a)
-            if with_defs and P.ATOMS.kind[a] in ('sqrt', 'inv', 'abs', 'opq'):
+            if with_defs and P.ATOMS.kind[a] in ('sqrt', 'inv', 'abs', 'opq', 'lin'):
                 todo.extend(P.ATOMS.info[a].atoms())
             elif with_defs and P.ATOMS.kind[a] == 'ite':
                 c, p, q = P.ATOMS.info[a]
@@ -317,6 +317,12 @@ class Solver:
                 import math
                 hi = Fraction(math.isqrt(int(u * 10 ** 12)) + 1, 10 ** 6)
                 self.box[a] = (Fraction(floor) if floor is not None else Fraction(0), hi)
+                return self.box[a]
+            if kind == 'lin':
+                u = ub(P.ATOMS.info[a])
+                if u is None:
+                    return None
+                self.box[a] = (-u, u)
                 return self.box[a]
             if kind == 'inv':
                 q = P.ATOMS.info[a]
